@@ -11,7 +11,7 @@ the file-number allocator; who may run the collector.
 Not decided: directory listings at quiescent points of real histories.
 """
 from ..paths import xgraph
-from ..program import const_val, key, strip_casts
+from ..program import const_val, key, strip_casts, vars_in
 from ..rules import (BAD, always_before, argkey, call_ok_dominates, check_automaton, check_guard, dnf,
                      find_calls, fmt_atoms, holds, is_call, must_pass_before_success, need_call, never_after,
                      one_call, site, stores_of_field_in_program)
@@ -99,44 +99,27 @@ def check_gc(ctx):
                     lambda e: is_call(e, ("ldb_rb_tree_copy", "rb_set64_copy", "ldb_versions_add_files", "ldb_get_children",
                                           "ldb_vector_push", "ldb_tables_evict")),
                     "live set, listing and classification happen in one section of the DB mutex", 4)
-    # switch exhaustive over ldb_filetype_t
-    sw, cases, dflt = switch_cases(f, "type")
-    ctx.require(sw is not None, "ldb_remove_obsolete_files: switch over the file type not found")
-    for en in FILETYPES:
-        ctx.check(en in cases, "T6-filetype-exhaustive", "gc:" + en, f.name, f.loc,
-                  "%s handled by the collector" % en, "file type %s is not handled by the collector's switch" % en)
+    # every ldb_filetype_t enumerator has its keep predicate (switch or if-chain alike: the
+    # classification is specialised per enumerator value)
+    from ..rules import assigned_under
     enums = sorted(n for n, v in P.enums.items() if v.get("enum") == "ldb_filetype")
     ctx.check(sorted(FILETYPES) == enums, "T6-filetype-exhaustive", "enum", "<program>", "src/filename.h",
               "ldb_filetype_t has the 7 known enumerators", "ldb_filetype_t enumerators are %s" % enums)
-    # keep predicates
+    uses_keep = lambda blk, cond: "keep" in vars_in(cond)
+    ctx.require(any(blk.term is not None and "cond" in blk.term and uses_keep(blk, blk.term["cond"]) for blk in f.blocks.values()),
+                "ldb_remove_obsolete_files: test of `keep` not found")
     keep_defs = {}
-    for en, bid in cases.items():
-        body = _fallthrough_body(f, bid)
-        # walk forward through the case body blocks until the break
-        seen = set()
-        st = [body.id]
-        found = []
-        while st:
-            b = st.pop()
-            if b in seen:
-                continue
-            seen.add(b)
-            blk = f.blocks[b]
-            for e in blk.ev:
-                if e["e"] == "asg" and key(e["lhs"]) == "keep":
-                    found.append(e)
-            if blk.term is not None and blk.term["k"] == "BreakStmt":
-                continue
-            for s in blk.succ:
-                if s is not None and (f.blocks[s].label or {}).get("case") is None and s not in seen:
-                    st.append(s)
-                elif s is not None and not f.blocks[b].ev and blk.term is None:
-                    st.append(s)
-        keep_defs[en] = found
+    for en in FILETYPES:
+        val = P.enums.get(en, {}).get("v")
+        ctx.require(val is not None, "enumerator %s not found" % en)
+        defs = assigned_under(f, "keep", "type", int(val), uses_keep)
+        keep_defs[en] = [{"rhs": d.get("rhs") if d["e"] == "asg" else d.get("init"), "l": d["l"], "e": d["e"]} for d in defs]
+        ctx.check(len(defs) >= 1, "T6-filetype-exhaustive", "gc:" + en, f.name, f.loc,
+                  "%s classified by the collector" % en, "file type %s reaches the keep test unclassified" % en)
     for en, want in sorted(KEEP.items()):
         found = keep_defs.get(en, [])
-        if len(found) != 1:
-            ctx.bad("T2-gc-keep-predicate", en, f.name, f.loc, "expected one assignment to keep for %s, found %d" % (en, len(found)))
+        if len(found) != 1 or found[0]["rhs"] is None:
+            ctx.bad("T2-gc-keep-predicate", en, f.name, f.loc, "expected one definition of keep to reach the test for %s, found %d" % (en, len(found)))
             continue
         rhs = found[0]["rhs"]
         if want == 1:
